@@ -4,6 +4,7 @@ import os
 import re
 
 from ..core.engine import Res
+from ..core.rules import exhaustive_loop
 from ..core.rules import wire, must_pass, guard, errset, checked_calls, guard_inventory, err_inventory, inventory_check
 from ..core.origins import Origins
 from ..core.fa_rule import fa_for, run_entries, dirty_report
@@ -30,6 +31,8 @@ def _load(name):
 
 def run(ctx):
     P = ctx.P
+    ctx.check('EXHAUSTIVE-LOOP', 'every PSK of the list is folded into the PSK secret', lambda P_: exhaustive_loop(P_, 'PskSecret::calculate'), floor=1)
+    ctx.check('EXHAUSTIVE-LOOP', 'every PSK id of the list is resolved', lambda P_: exhaustive_loop(P_, 'PskResolver::resolve'), floor=1)
     cfg = ctx.config
     U = 'Group as MessageProcessor::update_key_schedule'
     ctx.check('WIRE', 'receiver: PSKs resolved are those of the applied proposals',
